@@ -479,7 +479,7 @@ fn corruptions(t: &Template, lay: &Layout, every: usize) -> Vec<DiagCase> {
 }
 
 /// semantic errors at first / middle / last line
-fn semantic_cases(lay: &Layout) -> Vec<DiagCase> {
+fn semantic_cases(lay: &Layout, deep: bool) -> Vec<DiagCase> {
     let mut out = Vec::new();
     let base: Vec<&str> = vec!["bv: db 1", "wv: dw 2", "def f {", "inc bx", "}", "start:", "inc cx", "again:", "inc dx", "call f", "stc"];
     let bad: Vec<(&str, &str, Option<&str>)> = vec![
@@ -543,8 +543,9 @@ fn semantic_cases(lay: &Layout) -> Vec<DiagCase> {
     }
     // errors of the expansion machinery itself: the nesting limit (a chain of 135 macros, so that the error is
     // raised deep inside and handed up through more than 128 uses), direct and mutual recursion, recursion
-    // closed below a few proper levels, an unknown macro used three levels down
-    {
+    // closed below a few proper levels, an unknown macro used three levels down (each run takes about a second:
+    // in the layouts the caller selects)
+    if deep {
         let mut defs: Vec<String> = vec!["macro c0(a) -> inc a <-".to_string()];
         for k in 1..135 {
             defs.push(format!("macro c{}(a) -> c{}(a) <-", k, k - 1));
@@ -600,7 +601,8 @@ fn check_diag(rep: &Reporter, c: &Counters, st: &Stats, d: &DiagCase) {
     let re = regex::Regex::new(r";.*\n?").unwrap();
     let stripped = re.replace_all(&d.text, "\n").to_string();
     let lib = assemble(&stripped);
-    let out = run_cli(&d.text, "", &CliOpts::default());
+    // (a chain of 135 macros takes about a second on an idle machine: a generous watchdog for every diagnostic run)
+    let out = run_cli(&d.text, "", &CliOpts { timeout_ms: 30_000, ..Default::default() });
     let viol = |field: &str, expected: String, got: String| {
         let got = format!("{} | {}", d.what, got);
         if rep.absorbed_by(&d.site, field, &[], None, &got) {
@@ -850,8 +852,9 @@ pub fn run(tier: &Tier) -> i32 {
             diag.extend(corruptions(t, l, every));
         }
     }
-    for l in lays.iter().chain(extra_layouts().iter().filter(|l| l.crlf)) {
-        diag.extend(semantic_cases(l));
+    for (li, l) in lays.iter().chain(extra_layouts().iter().filter(|l| l.crlf)).enumerate() {
+        // the chain-of-135 cases: two layouts in quick (plain, and one with filler lines), every layout in thorough
+        diag.extend(semantic_cases(l, tier.thorough || li == 0 || li == 3));
     }
     // token corruptions under CR LF line ends, for a third of the templates
     for t in ts.iter().step_by(3) {
